@@ -414,7 +414,7 @@ def _native_sweep(script, rule, n_quick, n_thorough):
 
 PROPS['C03'] = dict(
     modules=['contracts.dtw_py'],
-    contracts=['dtw.distance#maxdist'],
+    contracts=['dtw.distance#maxdist', 'dtw.warping_paths#maxdist'],
     lemmas=['CellAbove', 'RowAboveLeft', 'RowAboveRight', 'AgreeStep', 'RowAllInf', 'RowLeadInf'],
     bounded={'early-abandoning-native-sweep': _native_sweep(
         'pruning_native.py',
@@ -422,7 +422,9 @@ PROPS['C03'] = dict(
         'Python/C cost matrix): max_dist at 0.5/0.9/1.1/2.0 times the unbounded distance must give that distance resp. inf; '
         'use_pruning where the Euclidean distance is a valid upper bound must give the unpruned result', 1500, 20000)},
     level='proof',
-    level_text='Python engine, dtw.distance(max_dist=m) without psi: proved for all lengths, values, windows, penalties and '
+    level_text='Python engine, dtw.distance(max_dist=m) and dtw.warping_paths(max_dist=m) without psi (the latter for the '
+               'Euclidean inner distance, and for the squared one with keep_int_repr=True; cells of the returned matrix that the '
+               'specification does not put above the bound are proved exact): proved for all lengths, values, windows, penalties and '
                'max_step that the PrunedDTW bookkeeping (start column sc, end column ec, early break, final test) returns '
                'result_fn of the unbounded accumulated cost W(r, c) whenever that cost is not above the internal bound, and '
                'inf whenever it is above it. Loop invariant: every buffer cell either equals W or both are above the bound; '
@@ -436,7 +438,9 @@ PROPS['C03'] = dict(
                'outside the proved route (psi, C cost matrices).',
     trusted_base=[PY_A1, A3_NUMPY, A7],
     assumptions=[PY_A1, A3_NUMPY, A7, 'bounded part: lengths <= 6, sampled options'],
-    not_decided=['C kernels with max_dist / pruning: bounded only', 'dtw.warping_paths(max_dist) and the C cost-matrix routines: bounded only',
+    not_decided=['C kernels with max_dist / pruning: bounded only', 'C cost-matrix routines with max_dist: bounded only',
+                 'dtw.warping_paths(max_dist) with the squared inner distance and keep_int_repr=False: the final test compares a '
+                 'square-rooted value with the user bound (sqrt/square round trip, excluded by the property): bounded only',
                  'use_pruning (bound taken from ub_euclidean): bounded only; its upper-bound argument is C09',
                  'max_dist together with psi relaxation: bounded only (KF-C03-* live there)',
                  'distance matrices with max_dist: bounded only'],
